@@ -224,11 +224,41 @@ def stores_in(node):
 
 def walk_flat(tree, *flat_fns):
     """ast.walk over a module in which the functions given (results of get_method / get_function, possibly with helpers
-    expanded in place) replace their originals, so that node identities agree with CFGs built from the flat functions"""
+    expanded in place) replace their originals, so that node identities agree with CFGs built from the flat functions.
+    A helper that was expanded and is called from nowhere else (only from the flat functions' originals or from other
+    expanded helpers) is skipped: its statements are already seen inside the caller."""
     repl = {id(getattr(f, '_flat_of', f)): f for f in flat_fns}
+    expanded = set()
+    for f in flat_fns:
+        expanded |= set(getattr(f, '_expanded', ()))
+    skip = set()
+    if expanded:
+        origs = set(repl)
+        helper_nodes = {}
+        for n in ast.walk(tree):
+            if isinstance(n, ast.FunctionDef) and n.name in expanded:
+                helper_nodes.setdefault(n.name, []).append(n)
+        inside = set()       # ids of nodes inside the originals of the flat functions or inside expanded helpers
+        for n in ast.walk(tree):
+            if id(n) in origs or (isinstance(n, ast.FunctionDef) and n.name in expanded):
+                for x in ast.walk(n):
+                    inside.add(id(x))
+        called_elsewhere = set()
+        for n in ast.walk(tree):
+            if id(n) in inside:
+                continue
+            if isinstance(n, ast.Attribute) and n.attr in expanded:
+                called_elsewhere.add(n.attr)
+            if isinstance(n, ast.Name) and n.id in expanded:
+                called_elsewhere.add(n.id)
+        for name, nodes in helper_nodes.items():
+            if name not in called_elsewhere:
+                skip |= {id(x) for x in nodes}
     st = [tree]
     while st:
         n = st.pop()
+        if id(n) in skip:
+            continue
         if id(n) in repl:
             n = repl[id(n)]
         yield n
